@@ -13,6 +13,10 @@ const (
 	Specified   class = iota // the grammar defines the result
 	Broken                   // unclosed '[' or dangling '\': matches nothing
 	Unspecified              // uses a construct the documentation does not define
+	// Reversed: the only undefined construct is a range written high-low ([c-a]). Implementations swap the
+	// bounds (Redis), read it as empty, or reject the pattern; under each of these a byte outside both
+	// bounds is not matched through that range, so "does not match" is still decidable (Match3).
+	Reversed
 )
 
 type tokKind int
@@ -31,12 +35,21 @@ type tok struct {
 	lit  byte
 	neg  bool
 	set  [256]bool
+	// maybe: bytes inside a reversed range (membership undefined)
+	maybe    [256]bool
+	hasMaybe bool
 }
 
 // Parse tokenizes a pattern.
-func Parse(p string) ([]tok, class) {
+func Parse(p string) (rtoks []tok, rcls class) {
 	var toks []tok
 	cls := Specified
+	rev := false
+	defer func() {
+		if rcls == Specified && rev {
+			rcls = Reversed
+		}
+	}()
 	i := 0
 	for i < len(p) {
 		c := p[i]
@@ -52,6 +65,7 @@ func Parse(p string) ([]tok, class) {
 			i++
 		case '\\':
 			if i+1 >= len(p) {
+				rev = false
 				return nil, brokenOr(cls)
 			}
 			toks = append(toks, tok{kind: tLit, lit: p[i+1]})
@@ -105,7 +119,11 @@ func Parse(p string) ([]tok, class) {
 						continue
 					}
 					if hi < lo {
-						cls = Unspecified // reversed range
+						rev = true // reversed range: membership of hi..lo is undefined
+						t.hasMaybe = true
+						for b := int(hi); b <= int(lo); b++ {
+							t.maybe[b] = true
+						}
 					}
 					for b := int(lo); b <= int(hi); b++ {
 						t.set[b] = true
@@ -168,14 +186,80 @@ func Match(toks []tok, s string) bool {
 	return false
 }
 
-// Expect returns (defined, want): defined=false means only termination/no-panic is required.
-func Expect(p, s string) (bool, bool) {
-	toks, cls := Parse(p)
+// Match3 is the three-valued reference for patterns of class Reversed: 0 = no reading matches,
+// 1 = every reading that accepts the pattern matches, 2 = depends on the reading of a reversed range.
+func Match3(toks []tok, s string) int {
+	if len(toks) == 0 {
+		if len(s) == 0 {
+			return 1
+		}
+		return 0
+	}
+	t := toks[0]
+	switch t.kind {
+	case tAny:
+		res := 0
+		for i := 0; i <= len(s); i++ {
+			switch Match3(toks[1:], s[i:]) {
+			case 1:
+				return 1
+			case 2:
+				res = 2
+			}
+		}
+		return res
+	case tOne:
+		if len(s) == 0 {
+			return 0
+		}
+		return Match3(toks[1:], s[1:])
+	case tLit:
+		if len(s) == 0 || s[0] != t.lit {
+			return 0
+		}
+		return Match3(toks[1:], s[1:])
+	case tSet:
+		if len(s) == 0 {
+			return 0
+		}
+		in := t.set[s[0]]
+		unknown := !in && t.maybe[s[0]] // a definite item decides; otherwise the reversed range might
+		if t.neg {
+			in = !in
+		}
+		if unknown {
+			if Match3(toks[1:], s[1:]) == 0 {
+				return 0
+			}
+			return 2
+		}
+		if !in {
+			return 0
+		}
+		return Match3(toks[1:], s[1:])
+	}
+	return 0
+}
+
+// Decide returns (defined, want) for an already parsed pattern.
+func Decide(toks []tok, cls class, s string) (bool, bool) {
 	switch cls {
 	case Broken:
 		return true, false
 	case Unspecified:
 		return false, false
+	case Reversed:
+		// only "no reading matches" is asserted (a reading that rejects the pattern matches nothing too)
+		if Match3(toks, s) == 0 {
+			return true, false
+		}
+		return false, false
 	}
 	return true, Match(toks, s)
+}
+
+// Expect returns (defined, want): defined=false means only termination/no-panic is required.
+func Expect(p, s string) (bool, bool) {
+	toks, cls := Parse(p)
+	return Decide(toks, cls, s)
 }
